@@ -441,7 +441,7 @@ class Color(NamedTuple):
                 raise ColorParseError(
                     f"color components must be <= 255 in {original_color!r}"
                 )
-            return cls(color, ColorType.TRUECOLOR, triplet=triplet)
+            return cls("".join(color.split()), ColorType.TRUECOLOR, triplet=triplet)
 
     @lru_cache(maxsize=1024)
     def get_ansi_codes(self, foreground: bool = True) -> Tuple[str, ...]:
